@@ -82,7 +82,22 @@ class State:
             n = len([l for l in snap.hlog.split(b"\n") if l])
         self.nlog = n
         self.tdirs = sorted({d for p in self.tracked for d in parents(p)})
-        self.commits = [k for k, v in snap.objects.items() if v and v.startswith(b"commit ")]
+        # commit ids depend on the clock: order them by first appearance in the journals, so that the same
+        # seed makes the same choices in every run
+        seen, order = set(), []
+        for raw in [snap.hlog] + [snap.blogs[k] for k in sorted(snap.blogs)]:
+            for line in (raw or b"").split(b"\n"):
+                t = line.split(b" ")
+                if len(t) > 2 and len(t[1]) == 40:
+                    try:
+                        cid = bytes.fromhex(t[1].decode())
+                    except ValueError:
+                        continue
+                    if cid not in seen and (snap.objects.get(cid) or b"").startswith(b"commit "):
+                        seen.add(cid)
+                        order.append(cid)
+        self.commits = order + sorted(k for k, v in snap.objects.items()
+                                      if v and v.startswith(b"commit ") and k not in seen)
         self.trees = [k for k, v in snap.objects.items() if v and v.startswith(b"tree ")]
         self.blobs = [k for k, v in snap.objects.items() if v and v.startswith(b"blob ")]
 
